@@ -351,7 +351,15 @@ def work_items(tier, flt):
         items.append({"env": env, "entry": entry, "adapter": "dm", "n": n, "cost": cost})
         if env in MULTI_REWARD or env in TEAM_REWARD:
             items.append({"env": env, "entry": entry, "adapter": "m2s", "n": n * 2, "cost": cost})
+    # multi-agent environments configured with a single agent: the action vector has exactly one entry
+    for env, entry in ONE_AGENT.items():
+        if envs.select_envs([env], flt) and not (flt and flt.get("entry")) and (tier != "quick" or env in ("Connector", "RobotWarehouse")):
+            items.append({"env": env, "entry": entry, "adapter": "gym", "n": max(2, n // 2), "cost": 2})
     return items
+
+
+ONE_AGENT = {"Connector": "g4a1t3uni", "RobotWarehouse": "s1x3h2a1r1q1t7", "LevelBasedForaging": "g5a1f1v5l2nVNp0t7",
+             "Cleaner": "r5c5a1tNone"}
 
 
 def _run_once(ctx, b, adapter, seed, ops, fail, aggs, concrete=None):
